@@ -38,3 +38,74 @@ let () =
     match Capi.crun [] ops with
     | None -> "UB"
     | Some live -> String.concat " " ("OK" :: List.map string_of_int (List.sort compare (List.map fst live))))
+
+(* ---- call histories (Capi2.v).  The C++ run-time interface is abstract in the model; here it is
+   instantiated by a RECORDER: objects are numbered in creation order, every call gets the next step
+   number, vector contents are literals or "the x produced by step k".  The record is the contents
+   trace in the form harness/drv_capi.cpp `rhist` replays on the C++ run-time interface. *)
+type xv = XL of string list | XO of int
+
+let () =
+  reg "hist" (fun t ->
+    let log = Buffer.create 4096 in
+    let nobj = ref 0 and nstep = ref 0 in
+    let show_x = function
+      | XL l -> "L " ^ string_of_int (List.length l) ^ String.concat "" (List.map (fun s -> " " ^ s) l)
+      | XO k -> "O " ^ string_of_int k in
+    let show_mat (a : string Capi2.matrix) =
+      let n = List.length a in
+      string_of_int n ^ " " ^ string_of_int n ^
+      String.concat "" (List.map (fun r -> " " ^ string_of_int (List.length r) ^
+        String.concat "" (List.map (fun (c, v) -> " " ^ Big_int_Z.string_of_big_int c ^ " " ^ v) r)) a) in
+    let show_prm = function None -> "-" | Some tr -> Ops_params.show_tree tr in
+    let mk kind n a pt =
+      let id = !nobj in incr nobj;
+      Buffer.add_string log (Printf.sprintf "new %d %s %d %s %s " id kind n (show_mat a) (show_prm pt)); id in
+    let new_precond n a pt = mk "a" n a pt and new_solver n a pt = mk "s" n a pt in
+    let step () = let k = !nstep in incr nstep; k in
+    let precond_apply o rhs x =
+      let k = step () in
+      Buffer.add_string log (Printf.sprintf "app %d %d %s %s " o k (show_x rhs) (show_x x)); (XO k, o) in
+    let solver_solve o rhs x =
+      let k = step () in
+      Buffer.add_string log (Printf.sprintf "slv %d %d %s %s " o k (show_x rhs) (show_x x)); ((k, XO k), o) in
+    let solver_solve_mtx o a rhs x =
+      let k = step () in
+      Buffer.add_string log (Printf.sprintf "mtx %d %d %s %s %s " o k (show_mat a) (show_x rhs) (show_x x)); ((k, XO k), o) in
+    let zlist t = t_list t (fun t -> z_of_int (t_i t)) in
+    let qlist t = t_list t (fun t -> show_q (parse_q (t_s t))) in
+    let prm_of s = if s = "-" then None else Some (int_of_string s) in
+    let steps = ref [] in
+    let fin = ref false in
+    while not !fin do
+      let c = match t_s t with
+        | "end" -> fin := true; None
+        | "wi" -> let b = t_i t in let _cap = t_i t in Some (Capi2.WrI (b, zlist t))
+        | "wv" -> let b = t_i t in let _cap = t_i t in Some (Capi2.WrV (b, qlist t))
+        | "wx" -> let b = t_i t in let _cap = t_i t in Some (Capi2.WrX (b, XL (qlist t)))
+        | "pc" -> Some (Capi2.PCreate (t_i t))
+        | "ps" -> let h = t_i t in let _kind = t_s t in let name = t_s t in let v = t_s t in Some (Capi2.PSet (h, name, v))
+        | "pj" -> let h = t_i t in
+          let script = t_list t (fun t -> let _kind = t_s t in let name = t_s t in let v = t_s t in (name, v)) in
+          Some (Capi2.PJson (h, Capi.capi_sets script empty_ptree))
+        | "pd" -> Some (Capi2.PDestroy (t_i t))
+        | ("ac" | "sc") as op ->
+          let h = t_i t in let f = t_i t <> 0 in let n = t_i t in
+          let bp = t_i t in let bc = t_i t in let bv = t_i t in let prm = prm_of (t_s t) in
+          Some (if op = "ac" then Capi2.ACreate (f, h, n, bp, bc, bv, prm) else Capi2.SCreate (f, h, n, bp, bc, bv, prm))
+        | "aa" -> let h = t_i t in let br = t_i t in let bx = t_i t in Some (Capi2.AApply (h, br, bx))
+        | "ss" -> let h = t_i t in let f = t_i t <> 0 in let br = t_i t in let bx = t_i t in Some (Capi2.SSolve (f, h, br, bx))
+        | "sm" -> let h = t_i t in let f = t_i t <> 0 in
+          let bp = t_i t in let bc = t_i t in let bv = t_i t in let br = t_i t in let bx = t_i t in
+          Some (Capi2.SSolveMtx (f, h, bp, bc, bv, br, bx))
+        | "ad" -> Some (Capi2.ADestroy (t_i t))
+        | "sd" -> Some (Capi2.SDestroy (t_i t))
+        | s -> failwith ("hist: unknown step " ^ s) in
+      match c with Some c -> steps := c :: !steps | None -> ()
+    done;
+    let m0 = { Capi2.mi = (fun _ -> []); Capi2.mv = (fun _ -> []); Capi2.mx = (fun _ -> XL []) } in
+    let r = Capi2.run "?" new_precond new_solver precond_apply solver_solve solver_solve_mtx [] m0 (List.rev !steps) in
+    Buffer.contents log ^ "end || " ^
+    (match r with
+     | None -> "UB"
+     | Some ((_, tb), _) -> String.concat " " ("OK" :: List.map string_of_int (List.sort compare (List.map fst tb)))))
